@@ -11,11 +11,12 @@ from .core import SInt, SBool, SEnum, Unsupported, branch, mkint, mkbool, _zi
 
 class SChar:
     """one decimal digit with symbolic value 0..9 (z3 Int term) in a concrete script (base = code point of its zero)"""
-    __slots__ = ("z", "base")
+    __slots__ = ("z", "base", "src")
 
-    def __init__(self, z, base=48):
+    def __init__(self, z, base=48, src=None):
         self.z = z
         self.base = base
+        self.src = src   # (field term, index, width): this digit is digit `index` of a `width`-digit rendering of term
 
     def __repr__(self):
         return "<%s>" % self.z
@@ -41,7 +42,7 @@ class TStr:
         out = []
         for i in range(width):
             v = z3.simplify((z / (10 ** (width - 1 - i))) % 10)
-            out.append(chr(base + v.as_long()) if z3.is_int_value(v) else SChar(v, base))
+            out.append(chr(base + v.as_long()) if z3.is_int_value(v) else SChar(v, base, (z, i, width)))
         return TStr(out)
 
     @staticmethod
@@ -276,9 +277,11 @@ class TStr:
             sign = 1
         if not its or not all(isinstance(i, SChar) or i.isdecimal() for i in its):
             raise ValueError("invalid literal for int() with base 10: %r" % (self.shape("#"),))
-        acc = z3.IntVal(0)
-        for i in its:
-            acc = acc * 10 + (i.z if isinstance(i, SChar) else _ud.decimal(i))
+        acc = _whole_field(its)
+        if acc is None:
+            acc = z3.IntVal(0)
+            for i in its:
+                acc = acc * 10 + (i.z if isinstance(i, SChar) else _ud.decimal(i))
         r = mkint(acc if sign > 0 else -acc)
         if isinstance(r, SInt) and sign > 0:
             PROV[r.z.get_id()] = (r.z, tuple(its))
@@ -332,6 +335,21 @@ class TStr:
 
     def join(self, seq):
         return sx_join(self, seq)
+
+
+def _whole_field(its):
+    """if the items are exactly the full digit sequence of one rendered field, its value is the field's own term
+    (avoids asking the solver to re-prove  sum digit_i * 10^i == value)"""
+    first = its[0]
+    if not isinstance(first, SChar) or first.src is None:
+        return None
+    term, idx, width = first.src
+    if idx != 0 or len(its) != width:
+        return None
+    for k, i in enumerate(its):
+        if not isinstance(i, SChar) or i.src is None or i.src[1] != k or i.src[2] != width or not i.src[0].eq(term):
+            return None
+    return term
 
 
 def coerce_from_shape(t, shaped):
@@ -589,7 +607,7 @@ class LazyIntStr:
     (str(int(ds)).zfill(n) == ds.zfill(n), rendered in ASCII); anything else forces the split."""
 
     def __init__(self, items):
-        self._items = tuple(SChar(i.z, 48) if isinstance(i, SChar) else chr(48 + _ud.decimal(i)) for i in items)
+        self._items = tuple(SChar(i.z, 48, i.src) if isinstance(i, SChar) else chr(48 + _ud.decimal(i)) for i in items)
         self._forced = None
 
     def zfill(self, n):
@@ -676,7 +694,7 @@ class SymUnicodedata:
                     raise Unsupported("digit block U+%04X not uniform under %s" % (i.base, form))
                 if _ud.combining(z0) != 0:
                     raise Unsupported("combining digit")
-                out.append(SChar(i.z, ord(z0)))
+                out.append(SChar(i.z, ord(z0), i.src))
         out.extend(_ud.normalize(form, "".join(run)))
         return wrap(TStr(out))
 
